@@ -51,9 +51,11 @@ def program(name, seed, flavours, force=()):
     # the same classes in every policy, plus a few that only one policy knows (so that hash
     # parameters and table layouts differ between policies); registration style varies
     L.append("template<int P, int K> struct Extra : C0 {};")
+    extras = {}
     for pi, p in enumerate(pols):
         suffix = "" if p == "default_policy" else ", " + p
         ne = rng.choice([0, 1, 2, 3, 5, 8, 13])
+        extras[pi] = ne
         if ne:
             L.append("static use_classes<C0, %s%s> YOMM2_GENSYM;" % (", ".join("Extra<%d, %d>" % (pi, k) for k in range(ne)), suffix))
         if rng.random() < 0.5:
@@ -81,7 +83,7 @@ def program(name, seed, flavours, force=()):
     for pi, p in enumerate(pols):
         if p == "pc":
             continue  # throw_error facet: throws resolution_error itself
-        main.append("    %s::error = [](const error_type& e) { if (auto r = std::get_if<resolution_error>(&e)) throw handler_tag{%d, *r}; };" % (p, pi))
+        main.append("    %s::error = [](const error_type& e) { if (auto r = std::get_if<resolution_error>(&e)) throw handler_tag{%d, *r}; if (std::get_if<method_table_error>(&e) || std::get_if<unknown_class_error>(&e)) throw handler_tag{%d, resolution_error()}; };" % (p, pi, pi))
     objs = "    " + " ".join("C%d o%d;" % (c, c) for c in range(n))
     main.append(objs)
 
@@ -101,6 +103,21 @@ def program(name, seed, flavours, force=()):
                     out.append('      CHECK(r == -2 && who == %d, "C14:front-end:wrong-outcome-or-foreign-handler", "%s: policy %s method %d class C%d: result %%d, handler of policy %%d (expected the error handler of policy %d)", r, who); }' % (pi, label, pols[pi], m, c, pi))
                 else:
                     out.append('      CHECK(r == %d, "C14:front-end:wrong-definition", "%s: policy %s method %d class C%d: result %%d, expected %d", r); }' % (e, label, pols[pi], m, c, e))
+        # an error that does not come from a method call: final on an object of another dynamic type goes
+        # to the handler of the pointer's policy (only policies with run-time checks notice)
+        if n > 1:
+            d = 1
+            pol = pols[pi]
+            out.append("    if constexpr (%s::has_facet<policy::runtime_checks>) { int who = -1; try { C0& base = o%d; auto vp = virtual_ptr<C0, %s>::final(base); (void)vp; } catch (handler_tag& t) { who = t.policy; } catch (method_table_error&) { who = %d; }" % (pol, d, pol, pi))
+            out.append('      CHECK(who == %d, "C14:front-end:final-misuse-reported-to-foreign-handler", "%s: virtual_ptr<C0, %s>::final on a C%d object: error delivered to the handler of policy %%d (expected %d)", who); }' % (pi, label, pol, d, pi))
+        # ...and a call with an object of a class that only ANOTHER policy knows: unknown class, reported
+        # to this policy's handler (checked hash + v-table pointer vector only: nothing else checks)
+        other = [pj for pj in range(len(pols)) if pj != pi and extras.get(pj)]
+        if other:
+            pj = other[0]
+            pol = pols[pi]
+            out.append("    if constexpr (%s::has_facet<policy::runtime_checks> && std::is_base_of_v<policy::vptr_vector<%s>, %s>) { int who = -1; static Extra<%d, 0> foreign; try { M%d_0::fn(foreign); who = -3; } catch (handler_tag& t) { who = t.policy; } catch (unknown_class_error&) { who = %d; } catch (resolution_error&) { who = -4; }" % (pol, pol, pol, pj, pi, pi))
+            out.append('      CHECK(who == %d, "C14:front-end:unknown-class-reported-to-foreign-handler-or-not-at-all", "%s: policy %s called with an object of a class registered only in policy %s: outcome %%d (expected the handler of policy %d)", who); }' % (pi, label, pol, pols[pj], pi))
         return out
     # interleaved history: update policies in random order, re-check every already-updated policy after each step
     order = list(range(len(pols)))
@@ -116,7 +133,7 @@ def program(name, seed, flavours, force=()):
             main += check_policy(q, "after step %d (update<%s>)" % (si, p))
         if rng.random() < 0.4 and p != "pc":
             # replacing one policy's handler must not change another policy's
-            main.append("    %s::error = [](const error_type& e) { if (auto r = std::get_if<resolution_error>(&e)) throw handler_tag{%d, *r}; };" % (p, pi))
+            main.append("    %s::error = [](const error_type& e) { if (auto r = std::get_if<resolution_error>(&e)) throw handler_tag{%d, *r}; if (std::get_if<method_table_error>(&e) || std::get_if<unknown_class_error>(&e)) throw handler_tag{%d, resolution_error()}; };" % (p, pi, pi))
             for q in done:
                 main += check_policy(q, "after step %d (handler of %s set again)" % (si, p))
     # catalogs: every policy has its own methods and each method its own definitions
